@@ -9,6 +9,13 @@ import time
 
 import common as C
 
+# Every session's message log (wire order per direction, causally consistent across directions: a client message is logged,
+# under the same lock, BEFORE it is written; a server message when it has been read) is collected here when COLLECT is on
+# and validated by TLC against spec/LspTrace.tla (tools/lsptrace.py).  No wall-clock time is involved.
+COLLECT = True
+SESSIONS = []
+_SLOCK = threading.Lock()
+
 
 class ServerDied(Exception):
     pass
@@ -33,7 +40,12 @@ class Server:
     def __init__(self, binary=None, env=None, cwd=None, timeout=20.0, trace=None, reply_delay=0.0):
         self.timeout = timeout
         self.reply_delay = reply_delay      # a slow client: server->client requests are answered only after this many seconds
-        self.trace = trace          # optional list collecting {"dir","method","id","summary"} events
+        if trace is None and COLLECT:
+            trace = []
+        self.trace = trace          # optional list collecting {"dir","method","id",..} events
+        self.tlock = threading.Lock()
+        self.meta = {"root": False, "cfg": None}     # what LspTrace's reset event carries
+        self.ended = False
         self.proc = subprocess.Popen([binary or C.SERVER_BIN], stdin=subprocess.PIPE, stdout=subprocess.PIPE,
                                      stderr=subprocess.DEVNULL, env=C.scrubbed_env(env), cwd=cwd)
         self.next_id = 1
@@ -48,9 +60,16 @@ class Server:
         self.reader.start()
 
     # --- wire
-    def _send(self, msg):
+    def _log(self, ev):
+        if self.trace is not None:
+            with self.tlock:
+                self.trace.append(ev)
+
+    def _send(self, msg, ev=None):
         data = json.dumps(msg, separators=(",", ":")).encode("utf-8")
         with self.wlock:
+            if ev is not None:
+                self._log(ev)
             try:
                 self.proc.stdin.write(b"Content-Length: %d\r\n\r\n" % len(data) + data)
                 self.proc.stdin.flush()
@@ -85,11 +104,11 @@ class Server:
         if "method" in msg and "id" in msg:
             # server -> client request (e.g. workspace/inlayHint/refresh): always answer
             self.server_requests += 1
-            if self.trace is not None:
-                self.trace.append({"dir": "s2c", "method": msg["method"], "id": msg["id"]})
+            self._log({"dir": "s2c", "method": msg["method"], "id": msg["id"]})
+
             def reply(mid=msg["id"]):
                 try:
-                    self._send({"jsonrpc": "2.0", "id": mid, "result": None})
+                    self._send({"jsonrpc": "2.0", "id": mid, "result": None}, {"dir": "c2s", "method": "response", "id": mid})
                 except ServerDied:
                     pass
             if self.reply_delay:
@@ -102,13 +121,17 @@ class Server:
         with self.cv:
             if "method" in msg:
                 m = msg["method"]
+                ev = {"dir": "s2c", "method": m}
                 if m == "textDocument/publishDiagnostics":
                     self.diagnostics.setdefault(msg["params"]["uri"], []).append(msg["params"]["diagnostics"])
+                    ev["uri"] = msg["params"]["uri"]
+                    ev["codes"] = [str(d.get("code")) for d in msg["params"]["diagnostics"]]
                 elif m == "window/logMessage":
                     self.logs.append(msg["params"].get("message", ""))
-                if self.trace is not None:
-                    self.trace.append({"dir": "s2c", "method": m})
+                    ev["message"] = msg["params"].get("message", "")[:80]
+                self._log(ev)
             elif "id" in msg:
+                self._log({"dir": "s2c", "method": "response", "id": msg["id"], "error": "error" in msg})
                 self.responses[msg["id"]] = msg
             self.cv.notify_all()
 
@@ -116,9 +139,7 @@ class Server:
     def request(self, method, params, timeout=None):
         i = self.next_id
         self.next_id += 1
-        if self.trace is not None:
-            self.trace.append({"dir": "c2s", "method": method, "id": i})
-        self._send({"jsonrpc": "2.0", "id": i, "method": method, "params": params})
+        self._send({"jsonrpc": "2.0", "id": i, "method": method, "params": params}, {"dir": "c2s", "method": method, "id": i})
         deadline = time.time() + (timeout or self.timeout)
         with self.cv:
             while i not in self.responses:
@@ -129,21 +150,24 @@ class Server:
                     raise Timeout("no response to %s within %.0fs" % (method, timeout or self.timeout))
                 self.cv.wait(left)
             msg = self.responses.pop(i)
-        if self.trace is not None:
-            self.trace.append({"dir": "s2c", "method": "response", "id": i})
         if "error" in msg:
             return {"__error__": msg["error"]}
         return msg.get("result")
 
-    def notify(self, method, params):
-        if self.trace is not None:
-            self.trace.append({"dir": "c2s", "method": method})
-        self._send({"jsonrpc": "2.0", "method": method, "params": params})
+    def notify(self, method, params, tag=None):
+        ev = {"dir": "c2s", "method": method}
+        if isinstance(params, dict) and isinstance(params.get("textDocument"), dict):
+            ev["uri"] = params["textDocument"].get("uri")
+            ev["nchanges"] = len(params.get("contentChanges", [])) if "contentChanges" in params else 1
+        if tag is not None:
+            ev["tag"] = tag         # abstract (document, version) label of the specification, when the caller has one
+        self._send({"jsonrpc": "2.0", "method": method, "params": params}, ev)
 
     def initialize(self, root=None, wait_scan=True):
         params = {"processId": None, "capabilities": {}, "rootUri": path_to_uri(root) if root else None}
         if root:
             params["workspaceFolders"] = [{"uri": path_to_uri(root), "name": "ws"}]
+        self.meta["root"] = bool(root)
         r = self.request("initialize", params)
         self.notify("initialized", {})
         if root and wait_scan:
@@ -166,17 +190,17 @@ class Server:
                     raise Timeout("log message %r not seen" % text)
                 self.cv.wait(left)
 
-    def did_open(self, path, text, version=1, wait_diag=True):
+    def did_open(self, path, text, version=1, wait_diag=True, tag=None):
         uri = path_to_uri(path)
         n = len(self.diagnostics.get(uri, []))
-        self.notify("textDocument/didOpen", {"textDocument": {"uri": uri, "languageId": "python", "version": version, "text": text}})
+        self.notify("textDocument/didOpen", {"textDocument": {"uri": uri, "languageId": "python", "version": version, "text": text}}, tag=tag)
         return self.wait_diag(uri, n) if wait_diag else None
 
-    def did_change(self, path, text, version=2, wait_diag=True):
+    def did_change(self, path, text, version=2, wait_diag=True, tag=None):
         uri = path_to_uri(path)
         n = len(self.diagnostics.get(uri, []))
         self.notify("textDocument/didChange", {"textDocument": {"uri": uri, "version": version},
-                                               "contentChanges": [{"text": text}]})
+                                               "contentChanges": [{"text": text}]}, tag=tag)
         return self.wait_diag(uri, n) if wait_diag else None
 
     def did_close(self, path):
@@ -211,10 +235,22 @@ class Server:
         return self.proc.poll() is None and not self.eof
 
     def close(self):
+        was_alive = self.alive()
+        try:
+            self._close()
+        finally:
+            if not self.ended:
+                self.ended = True
+                self._log({"dir": "end", "method": "end", "code": self.proc.poll(), "alive_before_close": was_alive})
+                if COLLECT and self.trace is not None:
+                    with _SLOCK:
+                        SESSIONS.append({"meta": dict(self.meta), "trace": self.trace})
+
+    def _close(self):
         try:
             if self.alive():
                 try:
-                    self.request("shutdown", None, timeout=3)
+                    self.request("shutdown", None, timeout=10)
                     self.notify("exit", None)
                 except Exception:
                     pass
@@ -222,7 +258,7 @@ class Server:
         except Exception:
             pass
         try:
-            self.proc.wait(timeout=2)
+            self.proc.wait(timeout=10)
         except Exception:
             self.proc.kill()
             self.proc.wait()
